@@ -45,7 +45,7 @@ func VerifH_C11_ScorchLifecycle() {
 		s.asyncTasks.Add(1)
 		go s.mergerLoop()
 	}
-	defer func() { verifMergeHook = nil }()
+	defer func() { verifMergeHook, verifMergeAwaitCancel = nil, false }()
 	steps := rt.Param("steps", 3)
 	cancelled, mergedAfterCancel, hookFired := false, false, false
 	nextID := byte('a')
@@ -71,7 +71,7 @@ func VerifH_C11_ScorchLifecycle() {
 				verifMergeHook = nil
 				hookFired = true
 				cancel()
-				time.Sleep(5 * time.Millisecond) // let the watcher of the context close the merge's cancel channel
+				verifMergeAwaitCancel = true // the stub merge waits until the cancellation has arrived
 			}
 			rt.Assert(s.ForceMerge(ctx, nil) == nil, "forced merge with a context that gets cancelled returns")
 			verifMergeHook = nil
